@@ -27,8 +27,9 @@ class Obligation(object):
         self.rule, self.key, self.ok, self.where, self.detail = rule, key, bool(ok), where, detail
 
     def as_sample(self):
+        show = self.detail and (not self.ok or self.detail.startswith('audited'))
         return '%s %s @ %s -> %s%s' % (self.rule, self.key, self.where, 'ok' if self.ok else 'FAIL',
-                                       (': ' + self.detail) if self.detail else '')
+                                       (': ' + self.detail) if show else '')
 
 
 class Check(object):
